@@ -73,6 +73,8 @@ type world struct {
 	stopped     bool
 	pendingPath string
 	sleepN      int64
+	stallAt     uint64
+	stallDur    time.Duration
 }
 
 // sleep advances the fake clock. Every sleep carries its own sub-millisecond
@@ -372,6 +374,9 @@ func (w *world) deliver(cc *clientConn, s *sent, wire []byte, cuts []int, gaps [
 			s.at = time.Now()
 			s.secretAt = len(w.rd.Log)
 			verifrt.ResetMeter(workCap)
+			if w.stallAt > 0 {
+				verifrt.SetStall(w.stallAt, w.stallDur)
+			}
 		}
 		cc.send(wire[pos:end])
 		pos = end
@@ -542,7 +547,7 @@ func (w *world) judge(cc *clientConn, s *sent, resp *response) {
 			return
 		}
 		verifh.Count("oracle.answers-compared-with-library", 1)
-		if msg := s.exp.Check(resp.body); msg != "" {
+		if msg := s.exp.Check(resp.body, time.Now()); msg != "" {
 			w.fail(clause, ep, witness, fmt.Sprintf("%s %s body=%s -> %d %s: %s; model: %s", s.method, s.path, clipB(s.body, 300), resp.status, clipB(resp.body, 200), msg, s.exp.Desc))
 			return
 		}
@@ -593,10 +598,17 @@ func (w *world) checkSecretBytes(s *sent, resp *response) {
 			got = append(got, w.rd.ByteAt(rec.Off+uint64(i)))
 		}
 	}
-	want := base32.StdEncoding.WithPadding(base32.NoPadding).EncodeToString(got)
 	verifh.Count("oracle.secret-bytes-traced-to-random-source", 1)
-	if g.Secret != want {
-		w.fail("answer==library", "/otp/secret", "secret-not-from-random-source", fmt.Sprintf("secret %q, but the random source delivered bytes encoding to %q during this request", g.Secret, want))
+	dec, err := otp.DecodeSecret(g.Secret)
+	if err != nil {
+		return // shape is judged by the model
+	}
+	// other requests (retries, probes on other connections) may have drawn from
+	// the stream in the same interval: the secret must be one contiguous piece of
+	// what the random source delivered since this request was sent
+	if !bytes.Contains(got, dec) {
+		want := base32.StdEncoding.WithPadding(base32.NoPadding).EncodeToString(got)
+		w.fail("answer==library", "/otp/secret", "secret-not-from-random-source", fmt.Sprintf("secret %q is not a contiguous part of what the random source delivered while this request was served (%q)", g.Secret, want))
 	}
 }
 
@@ -700,6 +712,7 @@ func (w *world) await2(cc *clientConn) {
 }
 
 func (w *world) checkTrip(ev *Event, what string) {
+	verifrt.SetStall(0, 0)
 	if verifrt.Tripped() {
 		if w.prop == "C19" {
 			w.fail("bounded-work", what, "work-cap", fmt.Sprintf("serving event %d (%s) executed more than %d instrumented statements: work unbounded in a request parameter; request: %s", w.evIdx, ev.Kind, workCap, reqDesc(ev.Req)))
@@ -793,7 +806,19 @@ func (w *world) run() {
 		switch ev.Kind {
 		case "req":
 			cc := w.usable(ev.Conn, ev.IP, ev.Fresh)
-			w.doReq(ev, cc, ev.Req, "main", ev.Cuts, ev.GapMs, ev.AbortAt, true)
+			if ev.StallAt > 0 {
+				// slow / descheduled handler: the goroutine serving this request sleeps
+				// (fake time) at its StallAt-th statement
+				w.stallAt, w.stallDur = uint64(ev.StallAt), time.Duration(ev.StallMs)*time.Millisecond+time.Duration(ev.StallNs)
+				before := verifrt.Stalls.Load()
+				w.doReq(ev, cc, ev.Req, "main", ev.Cuts, ev.GapMs, ev.AbortAt, true)
+				w.stallAt, w.stallDur = 0, 0
+				if verifrt.Stalls.Load() > before {
+					verifh.Count("fault.handler-stalled-mid-request", 1)
+				}
+			} else {
+				w.doReq(ev, cc, ev.Req, "main", ev.Cuts, ev.GapMs, ev.AbortAt, true)
+			}
 			if ev.Req.Class != "good" {
 				verifh.Count("fault.attack:"+ev.Req.Class, 1)
 			}
@@ -923,6 +948,17 @@ func (w *world) run() {
 					w.doReq(ev, cc, ev.Req, "main", nil, nil, 0, true)
 				}
 			}
+		case "manyattack":
+			verifh.Count("fault.sustained-attack", 1)
+			cc := w.usable(ev.Conn, ev.IP, true)
+			for k := 0; k < ev.N && w.viol == nil; k++ {
+				if cc.closed || cc.readEnded() || cc.writeFailed() || cc.dirty {
+					cc = w.open(ev.Conn, ev.IP)
+				}
+				w.doReq(ev, cc, ev.Req, "main", nil, nil, 0, true)
+			}
+			verifh.Count("fault.attack:"+ev.Req.Class, uint64(ev.N))
+			w.probe(ev, cc)
 		case "flood":
 			verifh.Count("fault.connection-flood-from-one-IP", 1)
 			ip := 50 + ev.IP
